@@ -237,8 +237,25 @@ def _rule_e(repo: Repo, rep: Report) -> None:
     tg = repo.mod("rdflib.plugins.serializers.trig")
     tu = repo.mod("rdflib.plugins.serializers.turtle")
     psq = tu.func("TurtleSerializer.p_squared")
-    uses_count = any(isinstance(n, ast.Compare) and "_references[" in norm(n.left) for n in own_nodes(psq))
-    rep.ob("C06.e-trig-graph-label-is-a-reference", tu, "TurtleSerializer.p_squared", "inlining is decided by self._references[node]", True,
+    # the reference counter is found by its ROLE, not by its (private) name: the attribute of the serializer that p_squared subscripts with the
+    # node it is asked to write (one of its own parameters) and compares with a number to decide if the node may be inlined
+    sself = psq.args.args[0].arg if psq.args.args else "self"
+    pparams = {a.arg for a in psq.args.args[1:] + psq.args.kwonlyargs}
+
+    def _num(e: ast.AST) -> bool:
+        return isinstance(e, ast.Constant) and isinstance(e.value, (int, float)) and not isinstance(e.value, bool)
+
+    counters: set[str] = set()
+    for n in own_nodes(psq):
+        if not (isinstance(n, ast.Compare) and len(n.ops) == 1 and not isinstance(n.ops[0], (ast.In, ast.NotIn, ast.Is, ast.IsNot))):
+            continue
+        for side, other in ((n.left, n.comparators[0]), (n.comparators[0], n.left)):
+            if (isinstance(side, ast.Subscript) and isinstance(side.value, ast.Attribute) and isinstance(side.value.value, ast.Name)
+                    and side.value.value.id == sself and isinstance(side.slice, ast.Name) and side.slice.id in pparams and _num(other)):
+                counters.add(side.value.attr)
+    uses_count = bool(counters)
+    cname = sorted(counters)[0] if counters else "_references"
+    rep.ob("C06.e-trig-graph-label-is-a-reference", tu, "TurtleSerializer.p_squared", "inlining is decided by self.%s[node]" % cname, True,
            "reference-count based inlining" if uses_count else "p_squared no longer inlines by reference count: the label obligation below is moot", node=psq)
     pre = tg.func("TrigSerializer.preprocess")
     loops = [n for n in own_nodes(pre) if isinstance(n, ast.For) and "contexts" in norm(n.iter)]
@@ -250,6 +267,7 @@ def _rule_e(repo: Repo, rep: Report) -> None:
 
         lp = loops[0]
         cvar = norm(lp.target)
+        pself = pre.args.args[0].arg if pre.args.args else "self"
         hit = None
         pdefs = H.local_defs(pre)
         pcfg = CFG(pre)
@@ -271,13 +289,14 @@ def _rule_e(repo: Repo, rep: Report) -> None:
         # no pass through the loop body comes round to the head again - other than by `continue`, which skips the graph - without it
         for x in [n for s_ in lp.body for n in ast.walk(s_) if isinstance(n, (ast.AugAssign, ast.Assign))]:
             tgt = x.target if isinstance(x, ast.AugAssign) else x.targets[0]
-            if not (isinstance(tgt, ast.Subscript) and norm(tgt.value).endswith("_references") and label_of_this_graph(tgt.slice, x)):
+            if not (isinstance(tgt, ast.Subscript) and isinstance(tgt.value, ast.Attribute) and tgt.value.attr in counters
+                    and isinstance(tgt.value.value, ast.Name) and tgt.value.value.id == pself and label_of_this_graph(tgt.slice, x)):
                 continue
             par = tg.parent.get(id(x))
             guard = par if isinstance(par, ast.If) and any(x is b for b in par.body) and not par.orelse and "BNode" in norm(par.test) else None
             if H.on_every_pass(pcfg, lp, guard if guard is not None else x):
                 hit = x
-        rep.ob("C06.e-trig-graph-label-is-a-reference", tg, "TrigSerializer.preprocess", hit if hit is not None else "self._references[%s.identifier] is incremented per written graph" % cvar,
+        rep.ob("C06.e-trig-graph-label-is-a-reference", tg, "TrigSerializer.preprocess", hit if hit is not None else "self.%s[%s.identifier] is incremented per written graph" % (cname, cvar),
                hit is not None, "graph label counted" if hit is not None else
                "the graph label is not counted as a reference: `<s> <p> _:g` inside one graph, with _:g also the name of another graph, is written as `<s> <p> [ ]` while the graph block keeps `_:g {`: after parsing, the object and the graph name are different blank nodes", node=hit or pre)
 
